@@ -17,6 +17,7 @@ RULE = (
     "assumes). One case = 50 strings. Non-trivial: at least one string of the case parsed successfully. Spec oracle "
     "on the implementation: no PANIC; a success re-parses to an equal endpoint ('re same'); acceptance agrees with "
     "an independent python reading of the grammar (lower-case tcp/ipc, non-empty host, decimal port <= 65535)."
+    " Family history: parsing is a function of the string — the same address text (21 of them) under tcp / ipc / TCP / udp back to back and interleaved, and every grammar batch again reversed and shuffled (with repeats): every answer equals the model's, whatever was parsed before."
 )
 ASSUMPTIONS = ["std::net IPv6/IPv4 parse/print laws (Laws) are hypotheses of C19_roundtrip; sampled here against the real std"]
 TRUSTED = ["regex crate semantics of the two patterns as spelled out in Model/Endpoint.lean", "Rust std::net address parsing/printing (modelled in Model/Ip.lean)"]
@@ -70,6 +71,24 @@ def cases(tier, rng):
     gs = grammar_strings(rng)
     for i in range(0, len(gs), 50):
         out.append(batch(f"grammar#{n}", gs[i : i + 50], ["grammar"]))
+        n += 1
+    # parsing is a FUNCTION of the string: whatever was parsed before (successfully or not) changes nothing.  The same
+    # address text under every transport spelling, back to back and interleaved; every grammar batch again in another order
+    addrs = ["127.0.0.1", "127.0.0.1:5555", "a:1", "example.com:4567", "[::1]:5", "::1", "*:0", "*", "/tmp/x.sock", "x", "0.0.0.0:0",
+             "localhost:80", "a.b:65535", "a.b:65536", "[fe80::1]:9", "host", ":1", "", "1.2.3.4:1", "[::ffff:1.2.3.4]:7", "tcp:1"]
+    hs = []
+    for a in addrs:
+        hs += ["tcp://" + a, "ipc://" + a, "tcp://" + a, "TCP://" + a, "ipc://" + a, "udp://" + a, "tcp://" + a, "ipc://" + a, "ipc://" + a]
+    for i in range(0, len(hs), 45):
+        out.append(batch(f"history#{n}", hs[i : i + 45], ["history"]))
+        n += 1
+    for i in range(0, len(gs), 50):
+        b = gs[i : i + 50]
+        out.append(batch(f"grammar-reversed#{n}", b[::-1], ["history"]))
+        n += 1
+        b2 = b[:]
+        rng.shuffle(b2)
+        out.append(batch(f"grammar-shuffled#{n}", b2 + b2[:10], ["history"]))
         n += 1
     # random unicode / mutation of valid endpoints
     k = 40 if tier == "quick" else 600
